@@ -249,7 +249,7 @@ fn classify(n: &Node, dot: bool, lang: &str, pasted: &str, other: bool) -> Vec<S
     if let Some(g) = glue_class(n, false) { return vec![format!("lexer_glue:{g}")]; }
     // pasted on another sheet an unqualified reference acquires the sheet name: "Sheet1!A1:x" is F04 too
     if other && contains(n, &|x| matches!(x, Node::OpRangeKind { left, .. } if matches!(rightmost(left), Node::ReferenceKind { .. }))) { return vec!["lexer_glue:ref_colon_F04".into()]; }
-    if contains(n, &|x| matches!(x, Node::ErrorKind(ironcalc_base::expressions::token::Error::NIMPL))) { return vec!["error_nimpl_spelling".into()]; }
+    // (F01 "#N/IMPL" spelling is repaired by 4a681a0: no class of its own any more)
     if lang != "en" && contains(n, &|x| matches!(x, Node::ErrorKind(_))) { return vec!["error_not_localized".into()]; }
     let lg = get_language(lang).unwrap();
     if contains(n, &|x| matches!(x, Node::FunctionKind { kind, .. } if lg.functions.lookup(&kind.to_localized_name(lg)).as_ref() != Some(kind))) {
@@ -335,7 +335,6 @@ impl<'a> Run<'a> {
                         let mut bp = vec![]; bad_pairs(&n, false, &mut bp);
                         if !bp.is_empty() { format!("copy_paren_dropped_associative:{}", bp[0]) }
                         else if let Some(g) = glue_class(&n, false) { format!("copy_lexer_glue:{g}") }
-                        else if contains(&n, &|x| matches!(x, Node::ErrorKind(ironcalc_base::expressions::token::Error::NIMPL)) || array_has_error(x, true)) { "copy_error_nimpl_spelling".into() }
                         else if lang != "en" && contains(&n, &|x| matches!(x, Node::ErrorKind(_)) || array_has_error(x, false)) { "copy_error_not_localized".into() }
                         else if !dot && contains(&n, &|x| matches!(x, Node::ArrayKind(rows) if rows.len() > 1)) { "copy_array_row_separator".into() }
                         else if contains(&n, &|x| matches!(x, Node::NamedFunctionKind { name, .. } if name.to_lowercase() != *name)) { "copy_named_function_lowercased".into() }
